@@ -4,6 +4,7 @@ package main
 // Injected at check time (go test -overlay); never committed to /repo.
 
 import (
+	"fmt"
 	"io"
 	"log"
 	"net/http"
@@ -64,6 +65,10 @@ type simReq struct {
 	remote  string
 	headers [][2]string
 	body    string
+	// abortOK: a panic while serving this request is contained the way net/http contains it (the
+	// connection is dropped, the process goes on); used only for requests the program under test
+	// is known to be unable to evaluate. Every other panic is reported by the simulator.
+	abortOK bool
 }
 
 type simResp struct {
@@ -91,6 +96,21 @@ func (sv *simServer) do(r simReq) simResp {
 		req.Header.Set("Content-Type", "application/json")
 	}
 	rec := httptest.NewRecorder()
+	if r.abortOK {
+		aborted := ""
+		func() {
+			defer func() {
+				if p := recover(); p != nil {
+					aborted = fmt.Sprint(p)
+				}
+			}()
+			sv.handler(rec, req)
+		}()
+		if aborted != "" {
+			return simResp{status: 0, body: "connection dropped: " + aborted}
+		}
+		return simResp{status: rec.Code, body: rec.Body.String()}
+	}
 	sv.handler(rec, req)
 	return simResp{status: rec.Code, body: rec.Body.String()}
 }
